@@ -28,8 +28,10 @@ PROPERTY = "C06"
 RULE = (
     "complete product of transform class x D x transform grid x groups x parameter kind x parameter menu; on every "
     "configuration every view of the alphabet (call / call(grid=True) / disp+flow on 6 grids / tensor+matrix / "
-    "points() for all 16 axes pairs and 4 grid forms / PointSetTransformer / ImageTransformer for 4x4 (target, source) "
-    "grids) is executed on the real object; distinct = configuration x view x argument form; non-trivial = at least "
+    "points() for the product (grid omitted / own / other grid same flag / other grid other flag) x (axes omitted / each explicit) x "
+    "(to_axes omitted / each explicit) plus to_grid forms (quick: every form with an omitted argument, all 16 explicit pairs for the "
+    "omitted grid, one rotating explicit pair per explicit grid) / PointSetTransformer for the same argument product / ImageTransformer "
+    "for 4x4 (target, source) grids and with either argument omitted) is executed on the real object; distinct = configuration x view x argument form; non-trivial = at least "
     "one judged point and the reference map moves a judged point by > 1e-3 world units"
 )
 EXPLANATION = "every view of every transform configuration compared in world space with the float64 denotation of its parameters"
@@ -302,7 +304,7 @@ def bounds(tier):
         "groups": [1, 2],
         "parameter_kinds": ["param", "buffer"],
         "parameter_menu": ["default", "const (dense)", "small", "large"],
-        "views": {"repeat(call,tensor,disp,call x grad/no_grad)": 8, "state_dict fingerprint": 1, "call": 4, "disp/flow": 9, "tensor/matrix": 2, "points": 16 + 9 + 1 if tier == "quick" else 65, "pointset": 4, "image": 11 if tier == "quick" else 17},
+        "views": {"repeat(call,tensor,disp,call x grad/no_grad)": 8, "state_dict fingerprint": 1, "call": 4, "disp/flow": 9, "tensor/matrix": 2, "points(grid x axes x to_axes omitted/explicit, + to_grid forms)": 102 if tier == "quick" else 275, "pointset": 23 if tier == "quick" else 113, "image(target/source omitted or explicit)": 17 if tier == "quick" else 23},
         "depth": 1,
     }
 
@@ -838,42 +840,70 @@ def run_config(spec, acc: Acc = None, only=None):
         moved = float(np.abs(exp - PW)[valid].max()) if valid.any() else 0.0
         judge_world(ctx, view, form, got, exp, valid[..., None] & np.ones_like(got, bool), tolw(gin, gout), moved, tensor_bytes(y))
 
+    # Argument forms of points() / PointSetTransformer: (grid, axes, to_grid, to_axes), None = argument omitted.
+    # Documented defaults: grid -> transform grid, axes -> transform axes (NOT the axes of `grid`), to_grid -> grid, to_axes -> axes.
+    GN = (None, "own", "size", "dom", "ac", "domac")  # omitted / own / other grid with the same flag (2) / with the other flag (2)
+    AN = (None,) + tuple(AXES)
+    thorough = spec.get("tier") == "thorough"
+    rot = (sum(map(ord, spec["grid"]["name"])) + N + (1 if spec["kind"] == "param" else 0) + len(ctx.lab)) % 4
+
+    def arg_forms(grids, tgrids, full):
+        forms = []
+        for g in grids:
+            for a_ in AN:
+                for b_ in AN:
+                    if not full and a_ is not None and b_ is not None and g is not None:
+                        # quick tier: with an explicit grid only one (rotating) explicit axes pair per grid; every form with an
+                        # omitted axes / to_axes argument and all 16 explicit pairs for the omitted grid are always run
+                        if (AXES.index(a_) + rot + GN.index(g)) % 4 != AXES.index(b_) or AXES.index(a_) != (rot + GN.index(g)) % 4:
+                            continue
+                    forms.append((g, a_, None, b_))
+        for g, tg in tgrids:
+            for a_ in AN:
+                for b_ in AN:
+                    if not full and a_ is not None and b_ is not None:
+                        continue
+                    forms.append((g, a_, tg, b_))
+        return forms
+
+    def resolve_form(g, a_, tg, b_):
+        rin = others[g] if g else rgrid
+        ain = a_ if a_ else ax
+        rout = others[tg] if tg else rin
+        aout = b_ if b_ else ain
+        kw = {}
+        if g:
+            kw["grid"] = real_others[g]
+        if a_:
+            kw["axes"] = a_
+        if tg:
+            kw["to_grid"] = real_others[tg]
+        if b_:
+            kw["to_axes"] = b_
+        name = f"grid={g or '-'}/axes={a_ or '-'}/to_grid={tg or '-'}/to_axes={b_ or '-'}"
+        return name, kw, rin, ain, rout, aout
+
     if want("points"):
-        thorough = spec.get("tier") == "thorough"
-        gforms = [("self", None, None)]
-        for a_in in AXES:
-            for a_out in AXES:
-                point_form("points", f"axes={a_in}>{a_out}/grids=self", lambda x, a=a_in, b_=a_out: t.points(x, axes=a, to_axes=b_), rgrid, a_in, rgrid, a_out)
-        extra = [("dom", None), (None, "dom"), ("size", "domac")]
-        pairs = list(itertools.product(AXES, AXES)) if thorough else [(GRID, WORLD), (WORLD, CUBE), (CORNERS, GRID)]
-        for gi_, go_ in extra:
-            rin = others[gi_] if gi_ else rgrid
-            rout = others[go_] if go_ else rin
-            for a_in, a_out in pairs:
-                kw = {}
-                if gi_:
-                    kw["grid"] = real_others[gi_]
-                if go_:
-                    kw["to_grid"] = real_others[go_]
-                point_form("points", f"axes={a_in}>{a_out}/grids={gi_ or 'self'}>{go_ or 'same'}",
-                           lambda x, a=a_in, b_=a_out, kw=kw: t.points(x, axes=a, to_axes=b_, **kw), rin, a_in, rout, a_out)
-        point_form("points", "axes=default", lambda x: t.points(x), rgrid, ax, rgrid, ax)
+        for fm in arg_forms(GN, ((None, "dom"), ("size", "domac"), ("ac", "own")) + (((None, "ac"), ("dom", "size")) if thorough else ()), thorough):
+            name, kw, rin, ain, rout, aout = resolve_form(*fm)
+            point_form("points", name, lambda x, kw=kw: t.points(x, **kw), rin, ain, rout, aout)
 
     if want("pointset"):
-        psf = [
-            ("default", {}, rgrid, ax, rgrid, ax),
-            ("axes=world", {"axes": "world"}, rgrid, WORLD, rgrid, WORLD),
-            ("grid=dom/axes=grid>world", {"grid": real_others["dom"], "axes": "grid", "to_axes": "world"}, others["dom"], GRID, others["dom"], WORLD),
-            ("to_grid=domac/axes=cube>cube_corners", {"to_grid": real_others["domac"], "axes": "cube", "to_axes": "cube_corners"}, rgrid, CUBE, others["domac"], CORNERS),
-        ]
-        for form, kw, gin, ain, gout, aout in psf:
+        if thorough:
+            psforms = arg_forms(GN, ((None, "domac"), ("ac", "own")), False)
+        else:
+            psforms = [(g, a_, None, b_) for g in (None, "size", "ac", "dom")
+                       for a_, b_ in ((None, None), (None, WORLD), (GRID, None), (WORLD, None), (CUBE, CORNERS))]
+            psforms += [(None, None, "domac", None), (None, None, "domac", CORNERS), ("ac", CUBE, "own", None)]
+        for fm in psforms:
+            name, kw, rin, ain, rout, aout = resolve_form(*fm)
             st, pst = guarded(lambda: PointSetTransformer(t, **kw))
             if acc is not None:
                 acc.trans()
             if st == "raises":
-                ctx.viol("pointset", form, raises_kind(pst), exc_text(pst))
+                ctx.viol("pointset", name, raises_kind(pst), exc_text(pst))
                 continue
-            point_form("pointset", form, lambda x, pst=pst: pst(x), gin, ain, gout, aout)
+            point_form("pointset", name, lambda x, pst=pst: pst(x), rin, ain, rout, aout)
 
     # -- V6: ImageTransformer on a ramp image --------------------------------------------------------------------
     if want("image"):
@@ -882,6 +912,8 @@ def run_config(spec, acc: Acc = None, only=None):
         if spec.get("tier") != "thorough":
             # quick tier: every target with the own source, every source with the own target, and one diagonal
             combos = [c_ for c_ in combos if c_[0] in (None, "own") or c_[1] == "own" or c_ in (("dom", "dom"), ("size", "ac"), ("ac", "dom"))]
+        # one argument omitted: source defaults to the target grid, target defaults to the transform grid
+        combos += [(a, None) for a in names[1:]] + [(None, b_) for b_ in names[1:]]
         for tg, sg in combos:
             rt_g = others[tg or "own"]
             rs_g = others[sg or (tg or "own")]
